@@ -20,6 +20,21 @@ CLAIMED = {
              "same harness. Heap exhaustion is outside the model.",
         technique="Lean 4 refinement proof + model/implementation differential correspondence",
         ref="DESIGN.md §5 C19"),
+    "C12": dict(
+        text="Lean 4 proofs about a model of xcm_addr.c: make is total and honest for every capacity "
+             "(C12_make_total: success iff the complete NUL-terminated address fits, never a truncated success, at most "
+             "`capacity` bytes touched), parse∘make is the identity for every transport, every well-formed host and all "
+             "ports 0..65535 (C12_roundtrip, relative to stated inet_pton/ntop laws which are proved for the IPv4 "
+             "instance), every accepted string is inside the documented syntax with a plain decimal port ≤ 65535 "
+             "(C12_parse_sound, C12_port_syntax), and is_valid agrees with the parsers (C12_is_valid_agrees). "
+             "Tie: the real xcm_addr.c functions (ASan, exact-size heap buffers) vs the compiled model on all 65536 "
+             "ports, every capacity 0..len+2, boundary/mutated/random strings; glibc strtol/inet_pton/regex models "
+             "validated against glibc in the same run.",
+        note="Trusted: Lean kernel (propext, Classical.choice, Quot.sound), the differential harness (sampled except "
+             "the port/capacity sweeps), glibc inet_pton/inet_ntop(AF_INET6) as an environment table re-checked in the "
+             "harness, the POSIX regex model validated by sampling. C-level memory safety only via ASan runs.",
+        technique="Lean 4 proofs (round trip, soundness, totality) + differential correspondence",
+        ref="DESIGN.md §5 C12"),
 }
 
 PENDING_REASON = "not yet built in this round: no check is claimed for it (the design in DESIGN.md §5 stands; " \
